@@ -232,8 +232,11 @@ class RegisterObject(StdTemplate[GenericArg]):
     _global_offset_: int
     _parent_offset_: GenericArg.offset
 
-    _readable_: bool = True
-    _writable_: bool = True
+    # no annotations: the template specialization replaces every annotated
+    # name with its evaluated annotation (the class `bool`, which is truthy)
+    # and would hide the flags set by readonly=/writeonly=
+    _readable_ = True
+    _writable_ = True
 
     _cohdlstd_objhasconfig: bool = False
 
